@@ -34,6 +34,7 @@ func (s *State) withPC(c *FuncCtx, cond string) *State {
 	if len(p) > 80 {
 		nm := c.fresh("pc", "Bool")
 		c.assume("true", eq(nm, p))
+		c.pcDefs[nm] = p
 		p = nm
 	}
 	n.pc = p
@@ -243,6 +244,8 @@ func (x *Exec) merge(sts []*State) *State {
 	}
 	npc := c.fresh("pc", "Bool")
 	c.assume("true", eq(npc, or(pcs...)))
+	c.merges[npc] = pcs
+	c.pcDefs[npc] = or(pcs...)
 	out.pc = npc
 	// variables: intersection of keys
 	keys := make([]string, 0, len(out.vars))
